@@ -458,6 +458,58 @@ void add_fam_space(mc::Runner &R, const std::string &name, const std::vector<Fam
   R.add(sp);
 }
 
+// Long arrays with 2..4 components (the tagged scheme takes one bit length per entry = the maximum over its components):
+// values i % K in a different phase per component, a single outlier optionally placed in one component of one entry.
+void add_multicomp_space(mc::Runner &R, const std::string &name, bool small, bool quick, bool thorough) {
+  // small: levels {1,7,10} x lengths {4096, 99996}; else all 11 levels x 4 lengths
+  static const int kLensAll[4] = {1000, 4096, 99996, 100000};
+  static const int kLensSmall[2] = {4096, 99996};
+  static const int kLevelsSmall[3] = {1, 7, 10};
+  const int *kLens = small ? kLensSmall : kLensAll;
+  static const uint32_t kMods[4] = {2, 300, 5000, 70000};
+  // index -> (level 0..10) x (outlier 0 none / 1 first entry / 2 last component of last entry) x mod x length x comps{2,3,4}
+  mc::Radix rx{small ? 3u : 11u, 3, 4, small ? 2u : 4u, 3};
+  mc::Space sp;
+  sp.name = name;
+  sp.size = rx.size();
+  sp.quick = quick;
+  sp.thorough = thorough;
+  sp.cases_per_index = 3;
+  sp.timeout_s = 120;
+  auto make = [rx, kLens, small](uint64_t idx, std::vector<uint32_t> *sym, int *comps, int *level, std::string *d) {
+    auto dg = rx.decode(idx);
+    *comps = 2 + (int)dg[4];
+    int n = kLens[dg[3]];
+    n -= n % *comps;
+    const uint32_t K = kMods[dg[2]];
+    *level = small ? kLevelsSmall[dg[0]] : (int)dg[0];
+    sym->resize(n);
+    for (int i = 0; i < n; ++i) (*sym)[i] = (uint32_t)(((uint64_t)(i / *comps) * 7 + (uint64_t)(i % *comps) * 131) % K);
+    if (dg[1] == 1) (*sym)[0] = (1u << 24) + 5;
+    if (dg[1] == 2) (*sym)[n - 1] = (1u << 17) - 1;
+    if (d) *d = std::to_string(n) + " values, " + std::to_string(*comps) + " components, values (7*entry + 131*component) mod " + std::to_string(K) +
+                (dg[1] == 1 ? ", first value 2^24+5" : dg[1] == 2 ? ", last value 2^17-1" : "") + ", level " + std::to_string(*level);
+  };
+  sp.run = [make](uint64_t idx, mc::Ctx &ctx) {
+    std::vector<uint32_t> sym;
+    int comps, level;
+    std::string d;
+    make(idx, &sym, &comps, &level, &d);
+    Acc acc;
+    for (int scheme = 0; scheme < 3; ++scheme) run_case(sym.data(), (int)sym.size(), comps, level, scheme, ctx, acc, [&] { return d; });
+    acc.flush(ctx);
+    ctx.count("multi_component_long_arrays");
+  };
+  sp.describe = [make](uint64_t idx) {
+    std::vector<uint32_t> sym;
+    int comps, level;
+    std::string d;
+    make(idx, &sym, &comps, &level, &d);
+    return d + " x {auto, forced tagged, forced raw}";
+  };
+  R.add(sp);
+}
+
 }  // namespace
 
 int main(int argc, char **argv) {
@@ -494,6 +546,8 @@ int main(int argc, char **argv) {
 
   if (fast_part) {
     add_fam_space(R, "norm_large", &g_fam_large, true, true);
+    add_multicomp_space(R, "long_arrays_2_to_4_components_small", true, true, false);
+    add_multicomp_space(R, "long_arrays_2_to_4_components", false, false, true);
     add_expensive_space(R, "expensive_len1to2", 1, 2, true, true);
     add_expensive_space(R, "expensive_len3_without_2p24", 3, 3, false, true, kExpensive9, 9);
     // the two largest cheap blocks run at -O2 (about 95 us per case under ASan)
